@@ -46,6 +46,7 @@ class Stats:
         self.static_queries = 0
         self.witnesses = 0
         self.unknown_feas = 0
+        self.vc_cached = 0
 
     def as_dict(self):
         return dict(self.__dict__)
@@ -68,6 +69,7 @@ class Engine:
         self.assumptions = []   # z3 BoolRefs
         self.assumption_notes = []
         self.stats = Stats()
+        self._valid_nopc = {}   # goal ast id -> goal (kept alive): proved without path condition
         self.concrete = None    # dict name -> value when running concretely
         self.guide = None       # model dict for concolic runs
         self._reset_path()
@@ -86,7 +88,7 @@ class Engine:
                 self.assumptions.append(v > strict_lo)
             if hi is not None:
                 self.assumptions.append(v <= hi)
-        return Q(v)
+        return Q(S.Lin.var(name, self.vars[name]))
 
     def intcount(self, name, lo=0):
         """integer-valued real input (head counts)"""
@@ -99,7 +101,7 @@ class Engine:
             self.kinds[name] = "int"
             if lo is not None:
                 self.assumptions.append(i >= lo)
-        return Q(z3.ToReal(self.vars[name]))
+        return Q(S.Lin.var(name, z3.ToReal(self.vars[name])))
 
     def assume(self, cond, note=None):
         if self.concrete is not None:
@@ -124,6 +126,7 @@ class Engine:
         self.pc = []            # z3 BoolRefs (decisions taken)
         self.decisions = []     # bools
         self._known = {}        # ast id -> bool
+        self._keep = []
         self._solver = None
         self._static_cache = {}
         from . import inject as _inj
@@ -198,6 +201,7 @@ class Engine:
 
     def _take(self, cond, d, implied=False):
         self._known[cond.get_id()] = d
+        self._keep.append(cond)   # AST ids are only unique among live ASTs: keep cached keys alive
         if implied:
             return
         self.decisions.append(d)
@@ -229,6 +233,7 @@ class Engine:
                 r = True
             s.set("timeout", self.FEAS_TIMEOUT_MS)
         self._static_cache[key] = r
+        self._keep.append(flag)
         return r
 
     # ---- exploration ------------------------------------------------------------
@@ -287,6 +292,18 @@ class Engine:
         for c in extra:
             s.add(bz(c))
         if prefer_dyadic:
+            # 1st choice: an "interior" dyadic witness (all non-negative inputs >= 1/8 and pairwise different sizes)
+            s.push()
+            k = 0
+            for nm, v in self.vars.items():
+                if self.kinds[nm] == "real" and not nm.startswith("uf!"):
+                    kk = z3.Int("dy!" + nm)
+                    s.add(v * 8 == z3.ToReal(kk))
+                    s.add(z3.Or(v >= z3.RealVal("1/8"), v <= z3.RealVal("-1/8")))
+                    k += 1
+            if s.check() == z3.sat:
+                return self._model_dict(s.model())
+            s.pop()
             s.push()
             # prefer multiples of 1/8 so that floats represent the witness exactly
             ks = []
@@ -333,6 +350,7 @@ class Evaluator:
         self._nres = 0
         self._busy = False
         self.cache = {}
+        self._keep = []
 
     def _resolve_ufs(self):
         """uninterpreted cdf applications get their true scipy value under the model"""
@@ -372,6 +390,7 @@ class Evaluator:
         else:
             r = frac_of(t)
         self.cache[k] = r
+        self._keep.append(term)
         return r
 
     def value(self, x):
@@ -499,7 +518,10 @@ def _s0(goal):
     return None
 
 
-def prove(eng, goal, use_pc=True, timeouts=(2, 20), label=""):
+_EQS_TACTIC = z3.Then(z3.Tactic("simplify"), z3.Tactic("solve-eqs"), z3.With(z3.Tactic("simplify"), sort_sums=True))
+
+
+def prove(eng, goal, use_pc=True, timeouts=(2, 20), label="", strong=None):
     """decide  assumptions & PC => goal.  goal: bool | z3 BoolRef."""
     t0 = time.time()
     eng.stats.vcs += 1
@@ -511,11 +533,43 @@ def prove(eng, goal, use_pc=True, timeouts=(2, 20), label=""):
         if _s0(goal):
             eng.stats.vc_s0 += 1
             return VCResult("valid", "S0", None, time.time() - t0)
+    gid = goal.get_id()
+    if gid in eng._valid_nopc:
+        eng.stats.vc_cached += 1
+        return VCResult("valid", "cached", None, 0.0)
     neg = z3.Not(bz(goal))
     pc = list(eng.pc)
     from . import inject as _inj
     base = list(eng.assumptions) + _inj.uf_axioms([bz(goal)] + pc)
     varlist = list(eng.vars.items())
+    # S0-eqs: equalities of the path condition (e.g. "weighted == unweighted") substituted, then normalised
+    if pc:
+        try:
+            g = z3.Goal()
+            for c in pc:
+                g.add(c)
+            g.add(neg)
+            sub = _EQS_TACTIC(g)
+            if len(sub) == 1 and sub[0].inconsistent():
+                eng.stats.vc_s0 += 1
+                eng.stats.vc_time += time.time() - t0
+                return VCResult("valid", "S0-eqs", None, time.time() - t0)
+        except z3.Z3Exception:
+            pass
+    # S1-cw: a component-wise sufficient condition (numerators, denominators, flags equal): linear arithmetic
+    if strong is not None and not isb(strong):
+        s = z3.Solver()
+        s.set("timeout", 1500)
+        for a in base + pc:
+            s.add(a)
+        s.add(z3.Not(strong))
+        if s.check() == z3.unsat:
+            eng.stats.vc_solver += 1
+            eng.stats.vc_time += time.time() - t0
+            return VCResult("valid", "S1-cw", None, time.time() - t0)
+    elif strong is not None and isb(strong) and strong:
+        eng.stats.vc_s0 += 1
+        return VCResult("valid", "S0", None, time.time() - t0)
     # S1: in-process, short timeout, without PC first (stronger statement), then with PC
     attempts = []
     if pc and use_pc:
@@ -532,6 +586,9 @@ def prove(eng, goal, use_pc=True, timeouts=(2, 20), label=""):
         if r == z3.unsat:
             eng.stats.vc_solver += 1
             eng.stats.vc_time += time.time() - t0
+            if stage == "S1-nopc" or not pc:
+                # valid without any path condition: valid on every path of this scenario
+                eng._valid_nopc[gid] = goal
             return VCResult("valid", stage, None, time.time() - t0)
         if r == z3.sat and stage != "S1-nopc":
             m = s.model()
